@@ -300,13 +300,13 @@ def detach(run, vm):
                      'its parent and children keep pointing at links that were overwritten' % (g1, g2))
     sb = pc.block_of[slotcpy[0]['i']]
     after = [e for e in calls_in(pc) if pc.block_of[e['i']] == sb and pc.pos_of[e['i']] > pc.pos_of[slotcpy[0]['i']] or sb in pc.dominators()[pc.block_of[e['i']]]]
-    fcn = any((e.get('fq') or '').endswith('Slot::firstChild') and e.get('args') and pc.strip_all_casts(e['args'][0]).get('v') == 0 for e in after)
-    nsn = any((e.get('fq') or '').endswith('Slot::nextSibling') and e.get('args') and pc.strip_all_casts(e['args'][0]).get('v') == 0 for e in after)
+    fcn = any((e.get('fq') or '').endswith('Slot::firstChild') and e.get('args') and pc.is_null(e['args'][0]) for e in after)
+    nsn = any((e.get('fq') or '').endswith('Slot::nextSibling') and e.get('args') and pc.is_null(e['args'][0]) for e in after)
     reg = [e for e in after if (e.get('fq') or '').endswith('Slot::child') and e.get('args')]
     rok = False
     for e in reg:
         ff = [x[:3] for x in dom.facts_at(pc, e['i'])]
-        if any('attachedTo()' in x[0] and x[1] == '!=' and x[2] == '0' for x in ff) and 'attachedTo()' in pc.render(pc.N(e['obj'])):
+        if any('attachedTo()' in x[0] and x[1] == '!=' and x[2] == '0' for x in ff) and 'attachedTo()' in pc.render(pc.deref(e['obj']), resolve=True):
             rok = True
     if fcn and nsn and rok:
         run.held('DETACH', 'PUT_COPY rebuilds the tree links', pc.loc(slotcpy[0]), 'firstChild(NULL), nextSibling(NULL), attachedTo()->child(is) after the copy')
